@@ -7,7 +7,7 @@ import benchgen as G
 import vcheck as V
 
 KEEP = {"reset", "bench_call", "precision_begin", "precision_end", "ts",
-        "initial_start", "loop_begin", "call", "count", "tally_snapshot", "round_end",
+        "initial_start", "overheads_measured", "loop_begin", "call", "count", "tally_snapshot", "round_end",
         "test_break", "user_panic", "bench_return", "report", "report_failed",
         "sched_end"}
 
@@ -83,6 +83,9 @@ def gen_scenarios(prop, tier, seed):
         if rnd.random() < 0.5:
             o["skip_ext_time"] = rnd.random() < 0.7
         sc["options"] = o
+        # the first benchmark of a process also pays for divan's one-off self-measurement
+        if rnd.random() < 0.3:
+            sc["clock"]["overhead_measure_cost"] = rnd.choice([1, 40, 5000])
         sc["costs"]["gen"] = rnd.choice([0, 50, 900, 4000])
         sc["costs"]["drop_out"] = rnd.choice([0, 30, 2000])
         sc["costs"]["call"] = sc["costs"].get("call") if "sample_size" not in o else rnd.choice([0, 1, 100, 900, 2500])
